@@ -5,7 +5,7 @@ from ..runner import OK, DISCARD, FAIL
 from .. import gen
 from .. import impl
 from . import common as C
-from .c20 import C20, Boom
+from .c20 import C20, Boom, BOOMS
 from . import c02 as U
 
 
@@ -163,7 +163,7 @@ class C03(C20):
                 rows = [tuple(x) for x in tt(r['rows'])]
                 r2 = dict(r, raise_at=(ending['n'] if kind == 'pyraise' else 0))
                 fn = self.make_func(yp, r2, rows, log, counter)
-                yp.register_function(r['name'], fn, **({} if r['style'] == 'inferred' else {'arity': r['arity'] if r['style'] == 'explicit' else -1}))
+                yp.register_function(r['name'], fn, **({} if r['style'] == 'inferred' else {'arity': r['arity'] if r['style'] in ('explicit', 'explicit-varargs') else -1}))
             name, args = impl.goal_parts(q)
             vmap = {}
             eargs = [impl.to_engine(yp, a, vmap) for a in args]
@@ -224,7 +224,9 @@ class C03(C20):
                             pass
                         except StopIteration:
                             return ('throw-swallowed', 'the query generator swallowed the exception thrown by its consumer')
-            except Boom as e:
+            except tuple(BOOMS) as e:
+                if e.args[:1] != ('boom',):
+                    raise
                 raised = e
                 bound_at_end = -1
             # (2) answers seen so far
@@ -261,8 +263,10 @@ class C03(C20):
             return ('impl-does-not-terminate', 'step budget')
         except RecursionError as e:
             return ('exception:RecursionError', str(e)[:100])
-        except Boom as e:
-            return ('exception:Boom-escaped-late', repr(e))
+        except tuple(BOOMS) as e:
+            if e.args[:1] == ('boom',):
+                return ('exception:Boom-escaped-late', repr(e))
+            return ('exception:' + impl.exc_signature(e), '%s: %s' % (type(e).__name__, str(e)[:300]))
         except Exception as e:      # noqa
             return ('exception:' + impl.exc_signature(e), '%s: %s' % (type(e).__name__, str(e)[:300]))
         classes = {'ending:' + kind, 'k=%s' % ('0' if k == 0 else 'last' if k == len(ref) else 'middle')}
